@@ -223,36 +223,25 @@ theorem frEpoch (t : Nat) (h : t < 4102444800) :
   · simp only [absSec]
     rw [hd]
     omega
-/-- echsd.c's January-based day count against the spec's `days` -/
-theorem ts_days (y m d : Nat) (hy1 : 2001 ≤ y) (hy2 : y ≤ 2099) (h1 : 1 ≤ m) (h2 : m ≤ 12) :
-    ((365 * (y - 2001) + (y - 2001) / 4 + echsdMonYday.getD m 0 + d + (if y % 4 = 0 ∧ m ≥ 3 then 1 else 0) : Nat) : Int)
-      + 730790 = days y m d := by
-  have c1 := cent y (by omega) (by omega)
-  have c2 := cent ((y : Int) - 1) (by omega) (by omega)
+/-- echsd.c's January-based day count (days since 2001-01-00, Gregorian leap rule, floor division)
+against the spec's `days`; every year, before and after 2001 -/
+theorem ts_days (y m d : Nat) (h1 : 1 ≤ m) (h2 : m ≤ 12) :
+    365 * ((y : Int) - 2001) + ((y : Int) - 2001) / 4 - ((y : Int) - 2001) / 100 + ((y : Int) - 2001) / 400
+      + (echsdMonYday.getD m 0 : Nat) + (d : Nat)
+      + (if (y % 4 == 0 && (y % 100 != 0 || y % 400 == 0)) && decide (m ≥ 3) then 1 else 0) + 730790
+      = days y m d := by
   rcases month_cases m h1 h2 with h|h|h|h|h|h|h|h|h|h|h|h <;> subst h
   all_goals simp [days, echsdMonYday]
   all_goals try split
   all_goals omega
 
-theorem instToTstamp_nd (i : Inst) (hv : ValidDate i) (hy1 : 2001 ≤ i.y) (hy2 : i.y ≤ 2099) :
-    ∃ nd : Nat, (nd : Int) + 730790 = days i.y i.m i.d ∧
-      instToTstamp i = (if i.isAllDay then nd * 86400 else ((nd * 24 + i.H) * 60 + i.M) * 60 + i.S) + 11322 * 86400 := by
-  obtain ⟨h1, h2, h3, h4⟩ := hv
-  have k := ts_days i.y i.m i.d hy1 hy2 h1 h2
-  have ml := monthLen_pos i.y i.m h1 h2
-  have hE : echsdMonYday.getD i.m 0 ≤ 334 := by
-    rcases month_cases i.m h1 h2 with h|h|h|h|h|h|h|h|h|h|h|h <;> rw [h] <;> decide
-  refine ⟨365 * (i.y - 2001) + (i.y - 2001) / 4 + echsdMonYday.getD i.m 0 + i.d + (if i.y % 4 = 0 ∧ i.m ≥ 3 then 1 else 0), k, ?_⟩
+/-- echsd.c `instant_to_tstamp` on every instant with a month 1..12, whatever the year and the other fields -/
+theorem instToTstamp_eq (i : Inst) (h1 : 1 ≤ i.m) (h2 : i.m ≤ 12) :
+    instToTstamp i = (days i.y i.m i.d - epochDays) * 86400 +
+      (if i.isAllDay then 0 else (((i.H : Int) * 60 + i.M) * 60 + i.S)) := by
+  have k := ts_days i.y i.m i.d h1 h2
   unfold instToTstamp
-  simp only [echsdEpochDays, Nat.reducePow]
-  have hc : (if i.y % 4 = 0 ∧ i.m ≥ 3 then 1 else 0) ≤ 1 := by split <;> omega
-  generalize echsdMonYday.getD i.m 0 = e at *
-  generalize (if i.y % 4 = 0 ∧ i.m ≥ 3 then 1 else 0) = c at *
-  have s1 : (i.y + 4294967296 - 2001) % 4294967296 = i.y - 2001 := by omega
-  simp only [s1]
-  have s2 : (365 * (i.y - 2001) + (i.y - 2001) / 4) % 4294967296 = 365 * (i.y - 2001) + (i.y - 2001) / 4 := by omega
-  simp only [s2]
-  have s3 : (365 * (i.y - 2001) + (i.y - 2001) / 4 + e + i.d + c) % 4294967296
-      = 365 * (i.y - 2001) + (i.y - 2001) / 4 + e + i.d + c := by omega
-  simp only [s3]
+  simp only [echsdEpochDays, epochDays_eq]
+  rw [← k]
+  split <;> omega
 end Echse.Instant
